@@ -4,7 +4,7 @@ from model import (dstr, strip, fact_holds, mentions_field, mentions_call, menti
                    mentions_enum, const_value, walk, ret_value_class)
 from rules import (guarded, calls_to, field_writes, who_may_call, full_range, loops_over,
                    every_iteration_passes, basename, origins, is_var, is_enum, lastname,
-                   dominated_by, reached_only_via, must_pass)
+                   dominated_by, reached_only_via, must_pass, linear)
 import charset
 
 # Characters that /bin/sh treats as ordinary in any position of an unquoted word.
@@ -38,8 +38,10 @@ def run(ctx):
         ctx.check('C16.W1', ok, name, 'unescaped-accessor:key', f.loc, '%s looks up "%s"' % (name, key))
     ec = prog.fn('Edge::EvaluateCommand')
     rets = list(ec.events('ret'))
-    os_ = origins(ec, rets[0].get('e')) if rets else []
-    ok = len(rets) == 1 and any(isinstance(strip(o), dict) and strip(o).get('name') == 'Edge::GetBinding' and '"command"' in dstr(strip(o).get('args')) for o in os_)
+    def from_command(r):
+        return any(isinstance(strip(o), dict) and strip(o).get('name') == 'Edge::GetBinding' and '"command"' in dstr(strip(o).get('args'))
+                   for o in origins(ec, r.get('e')))
+    ok = len(rets) >= 1 and all(from_command(r) for r in rets)
     ctx.check('C16.W1', ok, ec.name, 'EvaluateCommand:source', ec.loc, 'EvaluateCommand starts from GetBinding("command")')
     for e in ec.events('call'):
         if e.get('op') == '+=' and is_var('command')(e.get('recv')):
@@ -75,8 +77,22 @@ def run(ctx):
         t = b.get('term')
         if t and t['kind'] == 'for' and len(b['succ']) == 2:
             c = dstr(mpl.eff_cond(bid)).replace(' ', '')
-            ctx.check('C16.W1', '(span+size)' in c, mpl.name, 'MakePathList:loop-bound', 'src/graph.cc:%s' % t['line'],
-                      'every one of the `size` paths is appended (%s)' % c)
+            # the loop makes exactly `size` trips starting at the first element of `span`:
+            # bound - initial value == size (pointer loop from span to span + size, or index loop from 0 to size)
+            cc = strip(mpl.eff_cond(bid))
+            trips = None
+            if isinstance(cc, dict) and cc.get('k') == 'bin' and cc['op'] in ('!=', '<') and strip(cc['l']).get('k') == 'var':
+                lv = strip(cc['l'])['n']
+                inits = [x.get('init') for x in mpl.events('decl') if x['n'] == lv and x.get('init') is not None]
+                steps = [x for x in mpl.events('asg') if is_var(lv)(x['l'])]
+                if len(inits) == 1 and steps and all(x['op'] == '++' for x in steps):
+                    trips = linear(mpl, {'k': 'bin', 'op': '-', 'l': cc['r'], 'r': inits[0]})
+                    first = linear(mpl, inits[0])
+                    okfirst = first == {'span': 1} or (first == {} and any(
+                        x.get('k') == 'idx' and mentions_var(x.get('b'), 'span') and mentions_var(x.get('i'), lv) for ev in mpl.events() for x in walk(ev)))
+                    trips = trips if okfirst else None
+            ctx.check('C16.W1', trips == {'size': 1}, mpl.name, 'MakePathList:loop-bound', 'src/graph.cc:%s' % t['line'],
+                      'every one of the `size` paths is appended (%s; trips = %s)' % (c, trips))
             loop = {'header': bid, 'body': b['succ'][0], 'line': t['line'], 'bound': c}
             every_iteration_passes(ctx, 'C16.W1', mpl, loop, lambda x: x in esc or x in raw, 'each path is appended',
                                    'MakePathList:path-skipped')
